@@ -1,131 +1,107 @@
 /-
-`dynamicReplace` on a placeholder-free target: under the compatibility it assumes
-(`regular`), it returns the target (without annotations) unchanged.
+`dynamicReplace` on a placeholder-free target returns the target (without
+annotations) unchanged, whatever the source type is.
 -/
 import CtyModel.Lemmas.ConvertBasic
 namespace CtyModel
 namespace Convert
 open Ty
 
-theorem all_of_regular {E : Env} {its : List Ty} {oe : Ty}
-    (h : (its.all fun it => regular E it oe) = true) : ∀ t ∈ its, regular E t oe = true := by
-  intro t ht
-  exact List.all_eq_true.mp h t ht
-
 mutual
-theorem dynRepl_id (E : Env) (hU : UnifyLaws E) : ∀ (inT out : Ty),
-    regular E inT out = true → hasDyn out = false → wf out = true →
+theorem dynRepl_id (E : Env) : ∀ (inT out : Ty), hasDyn out = false → wf out = true →
     dynRepl E inT (stripOpt out) = .ok (stripOpt out)
-  | inT, .dyn, _, hd, _ => by simp [hasDyn] at hd
-  | inT, .bool, _, _, _ => by cases inT <;> simp [stripOpt, dynRepl, Ty.isDyn]
-  | inT, .number, _, _, _ => by cases inT <;> simp [stripOpt, dynRepl, Ty.isDyn]
-  | inT, .string, _, _, _ => by cases inT <;> simp [stripOpt, dynRepl, Ty.isDyn]
-  | inT, .capsule i, _, _, _ => by cases inT <;> simp [stripOpt, dynRepl, Ty.isDyn]
-  | inT, .map oe, hr, hd, hw => by
+  | inT, .dyn, hd, _ => by simp [hasDyn] at hd
+  | inT, .bool, _, _ => by cases inT <;> simp [stripOpt, dynRepl, Ty.isDyn]
+  | inT, .number, _, _ => by cases inT <;> simp [stripOpt, dynRepl, Ty.isDyn]
+  | inT, .string, _, _ => by cases inT <;> simp [stripOpt, dynRepl, Ty.isDyn]
+  | inT, .capsule i, _, _ => by cases inT <;> simp [stripOpt, dynRepl, Ty.isDyn]
+  | inT, .map oe, hd, hw => by
     have hw' : wf oe = true := by simpa [wf] using hw
     have hd' : hasDyn oe = false := by simpa [hasDyn] using hd
-    cases inT <;> simp [stripOpt, dynRepl, regular, Ty.isDyn] at hr ⊢
-    case map ie => rw [dynRepl_id E hU ie oe hr hd' hw']; rfl
+    cases inT <;> simp [stripOpt, dynRepl, Ty.isDyn]
+    case map ie => rw [dynRepl_id E ie oe hd' hw']; rfl
     case object inn its ios =>
       cases hu : E.unifyG true its with
       | none => simp
-      | some u =>
-        have := hr.2
-        simp only [hu] at this
-        simp [dynRepl_id E hU u oe this hd' hw', Res.map]
-  | inT, .list oe, hr, hd, hw => by
+      | some u => simp [dynRepl_id E u oe hd' hw', Res.map]
+  | inT, .list oe, hd, hw => by
     have hw' : wf oe = true := by simpa [wf] using hw
     have hd' : hasDyn oe = false := by simpa [hasDyn] using hd
-    cases inT <;> simp [stripOpt, dynRepl, regular, Ty.isDyn] at hr ⊢
-    case list ie => rw [dynRepl_id E hU ie oe hr hd' hw']; rfl
-    case set ie => rw [dynRepl_id E hU ie oe hr hd' hw']; rfl
+    cases inT <;> simp [stripOpt, dynRepl, Ty.isDyn]
+    case list ie => rw [dynRepl_id E ie oe hd' hw']; rfl
+    case set ie => rw [dynRepl_id E ie oe hd' hw']; rfl
     case tuple its =>
       cases hu : E.unifyG true its with
       | none => simp
-      | some u =>
-        have := hr.2
-        simp only [hu] at this
-        simp [dynRepl_id E hU u oe this hd' hw', Res.map]
-  | inT, .set oe, hr, hd, hw => by
+      | some u => simp [dynRepl_id E u oe hd' hw', Res.map]
+  | inT, .set oe, hd, hw => by
     have hw' : wf oe = true := by simpa [wf] using hw
     have hd' : hasDyn oe = false := by simpa [hasDyn] using hd
-    cases inT <;> simp [stripOpt, dynRepl, regular, Ty.isDyn] at hr ⊢
-    case list ie => rw [dynRepl_id E hU ie oe hr hd' hw']; rfl
-    case set ie => rw [dynRepl_id E hU ie oe hr hd' hw']; rfl
+    cases inT <;> simp [stripOpt, dynRepl, Ty.isDyn]
+    case list ie => rw [dynRepl_id E ie oe hd' hw']; rfl
+    case set ie => rw [dynRepl_id E ie oe hd' hw']; rfl
     case tuple its =>
       cases hu : E.unifyG true its with
       | none => simp
-      | some u =>
-        have := hr.2
-        simp only [hu] at this
-        simp [dynRepl_id E hU u oe this hd' hw', Res.map]
-  | inT, .object on ots oo, hr, hd, hw => by
+      | some u => simp [dynRepl_id E u oe hd' hw', Res.map]
+  | inT, .object on ots oo, hd, hw => by
     simp only [wf, Bool.and_eq_true, beq_iff_eq] at hw
     have hd' : hasDynL ots = false := by simpa [hasDyn] using hd
-    cases inT <;> simp [stripOpt, dynRepl, regular, Ty.isDyn] at hr ⊢
+    cases inT <;> simp [stripOpt, dynRepl, Ty.isDyn]
     case map ie =>
-      rw [dynReplAll_id E hU ie ots hr hd' hw.2]
+      rw [dynReplAll_id E ie ots hd' hw.2]
       simp [Res.map]
     case object inn its ios =>
-      rw [dynReplObj_id E hU inn its ios on ots hr hd' hw.2 hw.1.1.1]
+      rw [dynReplObj_id E inn its ios on ots hd' hw.2 hw.1.1.1]
       simp [Res.map]
-  | inT, .tuple ots, hr, hd, hw => by
+  | inT, .tuple ots, hd, hw => by
     have hw' : wfL ots = true := by simpa [wf] using hw
     have hd' : hasDynL ots = false := by simpa [hasDyn] using hd
-    cases inT <;> simp [stripOpt, dynRepl, regular, Ty.isDyn] at hr ⊢
+    cases inT <;> simp [stripOpt, dynRepl, Ty.isDyn]
     case tuple its =>
-      rw [dynReplTup_id E hU its 0 ots (by simpa using hr.2) (by simpa using hr.1) hd' hw']
-      rfl
+      by_cases hl : its.length = ots.length
+      · simp [hl, stripOptL_length]
+        rw [dynReplTup_id E its 0 ots (by omega) hd' hw']
+        rfl
+      · simp [hl, stripOptL_length]
 termination_by structural _ out => out
-theorem dynReplAll_id (E : Env) (hU : UnifyLaws E) : ∀ (ie : Ty) (os : List Ty),
-    regularAll E ie os = true → hasDynL os = false → wfL os = true →
+theorem dynReplAll_id (E : Env) : ∀ (ie : Ty) (os : List Ty), hasDynL os = false → wfL os = true →
     dynReplAll E ie (stripOptL os) = .ok (stripOptL os)
-  | _, [], _, _, _ => by simp [stripOptL, dynReplAll]
-  | ie, o :: os, hr, hd, hw => by
+  | _, [], _, _ => by simp [stripOptL, dynReplAll]
+  | ie, o :: os, hd, hw => by
     simp only [wfL, Bool.and_eq_true] at hw
-    simp only [regularAll, Bool.and_eq_true] at hr
     simp only [hasDynL, Bool.or_eq_false_iff] at hd
-    simp [stripOptL, dynReplAll, dynRepl_id E hU ie o hr.1 hd.1 hw.1, dynReplAll_id E hU ie os hr.2 hd.2 hw.2,
-      Res.map]
+    simp [stripOptL, dynReplAll, dynRepl_id E ie o hd.1 hw.1, dynReplAll_id E ie os hd.2 hw.2, Res.map]
 termination_by structural _ os => os
-theorem dynReplObj_id (E : Env) (hU : UnifyLaws E) : ∀ (inn : List String) (its : List Ty) (ios : List Bool)
-    (ns : List String) (os : List Ty),
-    regularObj E inn its ios ns os = true → hasDynL os = false → wfL os = true →
+theorem dynReplObj_id (E : Env) : ∀ (inn : List String) (its : List Ty) (ios : List Bool)
+    (ns : List String) (os : List Ty), hasDynL os = false → wfL os = true →
     ns.length = os.length → dynReplObj E inn its ios ns (stripOptL os) = .ok (stripOptL os)
-  | _, _, _, [], [], _, _, _, _ => by simp [stripOptL, dynReplObj]
-  | _, _, _, [], _ :: _, _, _, _, hl => by simp at hl
-  | _, _, _, _ :: _, [], _, _, _, hl => by simp at hl
-  | inn, its, ios, n :: ns, o :: os, hr, hd, hw, hl => by
+  | _, _, _, [], [], _, _, _ => by simp [stripOptL, dynReplObj]
+  | _, _, _, [], _ :: _, _, _, hl => by simp at hl
+  | _, _, _, _ :: _, [], _, _, hl => by simp at hl
+  | inn, its, ios, n :: ns, o :: os, hd, hw, hl => by
     simp only [wfL, Bool.and_eq_true] at hw
-    simp only [regularObj, Bool.and_eq_true] at hr
     simp only [hasDynL, Bool.or_eq_false_iff] at hd
     have hl' : ns.length = os.length := by simpa using hl
     rw [stripOptL, dynReplObj]
     cases hf : Ty.find n inn its ios with
-    | none => simp [dynReplObj_id E hU inn its ios ns os hr.2 hd.2 hw.2 hl', Res.map]
+    | none => simp [dynReplObj_id E inn its ios ns os hd.2 hw.2 hl', Res.map]
     | some x =>
       obtain ⟨ity, b⟩ := x
-      have h1 := hr.1
-      simp only [hf] at h1
-      simp [dynRepl_id E hU ity o h1 hd.1 hw.1,
-        dynReplObj_id E hU inn its ios ns os hr.2 hd.2 hw.2 hl', Res.map]
+      simp [dynRepl_id E ity o hd.1 hw.1, dynReplObj_id E inn its ios ns os hd.2 hw.2 hl', Res.map]
 termination_by structural _ _ _ _ os => os
-theorem dynReplTup_id (E : Env) (hU : UnifyLaws E) : ∀ (its : List Ty) (ix : Nat) (os : List Ty),
-    regularZip E (its.drop ix) os = true → ix + os.length ≤ its.length →
-    hasDynL os = false → wfL os = true → dynReplTup E (.tuple its) ix (stripOptL os) = .ok (stripOptL os)
-  | _, _, [], _, _, _, _ => by simp [stripOptL, dynReplTup]
-  | its, ix, o :: os, hr, hl, hd, hw => by
+theorem dynReplTup_id (E : Env) : ∀ (its : List Ty) (ix : Nat) (os : List Ty),
+    ix + os.length ≤ its.length → hasDynL os = false → wfL os = true →
+    dynReplTup E (.tuple its) ix (stripOptL os) = .ok (stripOptL os)
+  | _, _, [], _, _, _ => by simp [stripOptL, dynReplTup]
+  | its, ix, o :: os, hl, hd, hw => by
     simp only [wfL, Bool.and_eq_true] at hw
     simp only [hasDynL, Bool.or_eq_false_iff] at hd
     have hix : ix < its.length := by simp at hl; omega
-    have hdrop : its.drop ix = its[ix] :: its.drop (ix + 1) := by
-      rw [List.drop_eq_getElem_cons hix]
-    rw [hdrop] at hr
-    simp only [regularZip, Bool.and_eq_true] at hr
     rw [stripOptL, dynReplTup]
     simp only [List.getElem?_eq_getElem hix]
-    simp [dynRepl_id E hU its[ix] o hr.1 hd.1 hw.1,
-      dynReplTup_id E hU its (ix + 1) os hr.2 (by simp at hl ⊢; omega) hd.2 hw.2, Res.map]
+    simp [dynRepl_id E its[ix] o hd.1 hw.1,
+      dynReplTup_id E its (ix + 1) os (by simp at hl ⊢; omega) hd.2 hw.2, Res.map]
 termination_by structural _ _ os => os
 end
 
